@@ -1,13 +1,13 @@
 package main
 
 import (
-	"go/ast"
-	"os"
 	"fmt"
+	"go/ast"
 	"go/constant"
 	"go/token"
 	"go/types"
 	"math/big"
+	"os"
 	"sort"
 	"strings"
 
@@ -23,14 +23,14 @@ type edge struct {
 }
 
 type loopInfo struct {
-	header *ssa.BasicBlock
-	blocks map[*ssa.BasicBlock]bool
-	ann    *LoopAnn
-	desc   string
-	entry  *State // state at loop entry (after merge, before havoc)
-	hstate *State // havocked state at the header
-	phis   map[*ssa.Phi]Val
-	pre    map[*ssa.Phi]Val
+	header    *ssa.BasicBlock
+	blocks    map[*ssa.BasicBlock]bool
+	ann       *LoopAnn
+	desc      string
+	entry     *State // state at loop entry (after merge, before havoc)
+	hstate    *State // havocked state at the header
+	phis      map[*ssa.Phi]Val
+	pre       map[*ssa.Phi]Val
 	ws        *WS
 	allowed   map[string][]Loc
 	headAlloc string
@@ -38,24 +38,26 @@ type loopInfo struct {
 }
 
 type Frame struct {
-	c        *Ctx
-	fn       *ssa.Function
-	vals     map[ssa.Value]Val
-	depth    int
-	top      bool
-	contract *FuncContract
-	prefix   string
-	free     []Val
-	params   []Val
-	loops    map[*ssa.BasicBlock]*loopInfo
-	rcells   map[*ssa.Range]*Cell
-	stack    []*ssa.Function
-	callOrd  map[string]int
-	entrySt  *State
-	envVars  map[string]Val
-	refs     map[string][]refRec
-	callOrdinals map[*CallAnn]map[ssa.Instruction]int
-	curBlock *ssa.BasicBlock
+	c            *Ctx
+	fn           *ssa.Function
+	vals         map[ssa.Value]Val
+	depth        int
+	top          bool
+	contract     *FuncContract
+	prefix       string
+	free         []Val
+	params       []Val
+	loops        map[*ssa.BasicBlock]*loopInfo
+	rcells       map[*ssa.Range]*Cell
+	stack        []*ssa.Function
+	callOrd      map[string]int
+	entrySt      *State
+	envVars      map[string]Val
+	refs         map[string][]refRec
+	callOrdinals map[*CallAnn]map[string]int
+	root         *Frame // the frame of the function under contract (nil for that frame itself)
+	path         string // chain of call sites from the function under contract to this (inlined) frame
+	curBlock     *ssa.BasicBlock
 	// results
 	rets []retInfo
 }
